@@ -8,7 +8,7 @@ Local Open Scope Z_scope.
 (* session isolation, for every history: the store seen through one token and field evolves as a one-cell machine that
    reacts only to operations presenting that token (and to the count of issued tokens); every other token's
    operations, voucher and blob operations and restarts are invisible to it *)
-Theorem C18_isolation : forall n f ops st, proj n f (fst (run st ops)) = fold_left (astep n f) ops (proj n f st).
+Theorem C18_isolation : forall n f ops, f <> 1%N -> forall st, proj n f (fst (run st ops)) = fold_left (astep n f) ops (proj n f st).
 Proof. exact proj_run. Qed.
 Print Assumptions C18_isolation.
 
@@ -22,20 +22,35 @@ Proof. exact astep_new_frame. Qed.
 Print Assumptions C18_new_tokens_do_not_disturb.
 
 (* what is read is what the cell holds: the last value written through this token, if the token is still valid *)
-Theorem C18_read : forall n f st, snd (step st (OGet (TId n) f)) = aget (proj n f st).
+Theorem C18_read : forall n f st, snd (step st (OGet (TId n) f)) = aget n (proj n f st).
 Proof. exact get_is_cell. Qed.
 Print Assumptions C18_read.
 
-Theorem C18_read_your_write : forall n f c x, c_alive c = true -> aget (astep n f c (OSet (TId n) f x)) = RVal x.
+Theorem C18_read_your_write : forall n f c x, c_alive c = true -> (f <> 0%N /\ f <> 2%N \/ c_val c = None) ->
+  aget n (astep n f c (OSet (TId n) f x)) = RVal x.
 Proof. exact cell_set_get. Qed.
 Print Assumptions C18_read_your_write.
 
+(* the full statement (every stored value is what is later read) is FALSE for two fields, in the model as in the code:
+   a second SetDeviceCertChain reports success but the first chain stays (plain INSERT, open known finding
+   overwrite-keeps-first-value); a second SetIncompleteVoucherHeader is refused with an error (write-once) *)
+Theorem C18_overwrite_refuted : forall n f c x y, c_alive c = true -> c_val c = Some y -> (f = 0%N \/ f = 2%N) ->
+  aget n (astep n f c (OSet (TId n) f x)) = RVal y.
+Proof. exact first_write_stays. Qed.
+Print Assumptions C18_overwrite_refuted.
+
 (* tokens the store did not issue or that were invalidated grant nothing and change nothing, for ever *)
 Theorem C18_bad_token : forall st t, live st t = None ->
-  (forall f v, step st (OSet t f v) = (st, RInvalid)) /\ (forall f, step st (OGet t f) = (st, RInvalid)) /\
-  step st (OInval t) = (st, RNotFound).
+  (forall f v, fst (step st (OSet t f v)) = st /\ forall x, snd (step st (OSet t f v)) <> RVal x) /\
+  (forall f, fst (step st (OGet t f)) = st /\ forall x, snd (step st (OGet t f)) <> RVal x) /\
+  fst (step st (OInval t)) = st.
 Proof. exact bad_token_nothing. Qed.
 Print Assumptions C18_bad_token.
+
+Theorem C18_never_issued : forall st f v,
+  step st (OSet TBad f v) = (st, RInvalid) /\ step st (OGet TBad f) = (st, RInvalid) /\ step st (OInval TBad) = (st, RNotFound).
+Proof. exact never_issued_invalid. Qed.
+Print Assumptions C18_never_issued.
 
 Theorem C18_unissued : forall st n, (length (st_sess st) <= n)%nat -> live st (TId n) = None.
 Proof. exact unissued_is_bad. Qed.
@@ -51,11 +66,15 @@ Print Assumptions C18_dead_stays_dead.
 
 (* vouchers and rendezvous blobs *)
 Theorem C18_replace_voucher : forall st g g' v st',
-  step st (OReplV g g' v) = (st', ROk) ->
+  bget g (st_vouchers st) <> None -> step st (OReplV g g' v) = (st', ROk) ->
   snd (step st' (OGetV g')) = RVal v /\ (g <> g' -> snd (step st' (OGetV g)) = RNotFound) /\
   (forall h, h <> g -> h <> g' -> snd (step st' (OGetV h)) = snd (step st (OGetV h))).
 Proof. exact replace_voucher. Qed.
 Print Assumptions C18_replace_voucher.
+
+Theorem C18_replace_missing : forall st g g' v, bget g (st_vouchers st) = None -> fst (step st (OReplV g g' v)) = st.
+Proof. exact replace_missing. Qed.
+Print Assumptions C18_replace_missing.
 
 Theorem C18_blob_expiry : forall st g now b, snd (step st (OGetBlob g now)) = RVal b ->
   exists e, bget g (st_blobs st) = Some (b, e) /\ now <= e * 1000.
@@ -75,5 +94,5 @@ Print Assumptions C18_restart.
 Example C18_example :
   snd (run empty [ONew 2; ONew 4; OSet (TId 0) 5 [x01]; OSet (TId 1) 5 [x02]; ORestart; OGet (TId 0) 5; OInval (TId 1);
                   OGet (TId 1) 5; OGet (TId 0) 5; OGet TBad 5; OSetBlob [x0a] [x0b] 10; OGetBlob [x0a] 10000; OGetBlob [x0a] 10001]%byte) =
-  [RTok 0; RTok 1; ROk; ROk; ROk; RVal [x01]; ROk; RInvalid; RVal [x01]; RInvalid; ROk; RVal [x0b]; RNotFound]%byte.
+  [RTok 0; RTok 1; ROk; ROk; ROk; RVal [x01]; ROk; RNotFound; RVal [x01]; RInvalid; ROk; RVal [x0b]; RNotFound]%byte.
 Proof. vm_compute. reflexivity. Qed.
